@@ -1,26 +1,35 @@
 # Proposed CHECKS entry for C16 (paste into /verif/checks_config.py; T(...) is the helper defined there).
-# Measured (16-core sandbox, other jobs running): ~45-55 ms per case (~160 HTTP requests per case),
-# so quick = 350 cases x 4 shards ~ 17-20 s wall (250 x 4 measured 12.4 s); thorough = 4500 x 16 ~ 4-6 min.
+# Measured (16-core sandbox, other jobs running): ~50 ms per case (~200 HTTP requests per case) plus the in-process reopen
+# (one case in six), whose cost grows with the number of repos already in the test store (every instance is re-initialised):
+# one shard alone: 350 cases 31 s, 600 cases 65 s, 1500 cases 342 s.  quick = 300 x 4: ./check C16 wall 31-35 s (seeds 1,2,3);
+# thorough = 1000 x 16 (about 160 s per shard alone); do not raise the per-shard count, add shards instead.
 ENTRY = {
     "C16": {
         "pkg": "c16",
         "level": "exploration",
         "tests": [
-            T("TestC16History", (350, 4), (4500, 16)),
+            T("TestC16History", (300, 4), (1000, 16)),
         ],
         "required_classes": [
             "armed(null-delete|replace after >=2 partial updates)",
             "null-delete", "replace", "replace-removes", "keeps-unmentioned", "conditional-protects",
             "repeat-identical-value", "explicit-stamps", "delete-key", "postkvs", "branch", "advance",
             "compare/mid-history", "schema/json_schema", "schema/write-rejected",
+            "print-equal-sibling-update", "print-equal-sibling-update/by-different-user",
+            "reopen", "reopen/>=2-bodies", "reopen/lexicographic!=numeric-ids",
             "query/equality", "query/list", "query/regex", "query/exists", "query/and", "query/or", "query/onlyid", "query/show",
             "value/nested", "value/int>2^53", "bodyid>2^53",
         ],
         "rule": "rapid-generated op lists (4-20 ops) over POST key (plain / replace=true / conditional fields; 0-3 fields drawn from a..type with values "
                 "from a JSON vocabulary: strings incl. escapes, ints up to 2^64-1 and below -2^53, floats, integral floats 3.0/1e3/[1.0,2], bools, "
-                "lists, nested objects, nulls, repeats of the last posted value, caller-supplied *_user/*_time), POST keyvalues (protobuf batch), "
+                "lists, nested objects, nulls, repeats of the last posted value, print-equal siblings of the field's current value "
+                "(12/\"12\", [\"a b\"]/[\"a\",\"b\"]/\"[a b]\", {\"x\":1}/{\"x\":\"1\"}, [1,2]/\"[1 2]\", true/\"true\", ...: different values whose Go renderings coincide), "
+                "caller-supplied *_user/*_time), POST keyvalues (protobuf batch), "
                 "DELETE key, json_schema/schema/schema_batch POST and DELETE, commit+newversion on the master line and on a side branch, "
-                "mid-history comparisons; users vary per request; 2-5 body ids per case from {1,2,3,9,10,11,25,100,300,2010,2^53+1,2^64-1}. "
+                "mid-history comparisons, and in one case out of six one in-process restart (datastore.CloseReopenTest) in the second half of the history, usually right "
+                "after a batch write to two bodies whose ids sort differently as strings and as numbers: every read of a comparison point is taken on the in-memory "
+                "head before and after the reopen and must be identical (order included for keys, keyrange, keyrangevalues, keyvalues, query), then the history goes on; "
+                "users vary per request; 2-5 body ids per case from {1,2,3,5,9,10,11,25,30,100,200,300,1000,2010,2^53+1,2^64-1}, always of at least two digit counts. "
                 "After every write the annotation is read back and compared with model.NJState (merge rules, stamps). Each comparison commits "
                 "the head H, creates master child H' (memory path) and a fresh branch B off H (store path) and issues keys, all(+show/fields), "
                 "fields, fields?counts=true, key (+show=all), HEAD key, keyrange, keyrangevalues (json+protobuf), keyvalues (json+protobuf), "
@@ -29,7 +38,8 @@ ENTRY = {
                 "replace=true after >=2 partial updates of the same body on the master line, followed by a dual-path comparison. "
                 "Distinct = hash of the case value.",
         "assumptions": [
-            "the restart clause (O2) is decided by the child-process check, not here",
+            "the restart is emulated in-process with the upstream persistence-test helper datastore.CloseReopenTest (stores closed and reopened, metadata reloaded, every instance "
+            "decoded afresh and re-initialised); package-level state survives it, neuronjson keeps none; a real process restart (O2) is decided by the child-process check",
             "*_time is compared only for same/different; 'the current time' is only asserted to differ from a caller-supplied past date",
             "stamps are not asserted where the help text is silent: a null on an absent field, a same-value post carrying explicit *_user/*_time, "
             "numerically equal but textually different numbers, the stamps of removed fields",
